@@ -27,7 +27,7 @@ BL_EPS = {"blacklist", "refundUsers", "unblacklist"}
 PROPS = {
     "C01": dict(
         title="Ticket-payment solvency",
-        lean=["LP.Props.C01", "LP.Props.C01reach", "LP.Props.C01reachV2", "LP.Props.C01reachV1", "LP.Props.C01reachG1", "LP.Props.C14reach", "LP.Props.C14reachG", "LP.Props.AllVariants", "LP.Props.C09nothing"],
+        lean=["LP.Props.C01", "LP.Props.C01reach", "LP.Props.C01reachV2", "LP.Props.C01reachV1", "LP.Props.C01reachG1", "LP.Props.C14reach", "LP.Props.C14reachG", "LP.Props.AllVariants", "LP.Props.C09nothing", "LP.Props.C01receipts"],
         profiles=[("life", ALL_VARIANTS), ("chunks", ALL_VARIANTS)],
         R={"xf.pay": {"claim", "claimPayment", "blacklist", "refundUsers"},
            "st": ({"claim", "claimPayment"}, FUNDS_MSGS)},
@@ -35,7 +35,7 @@ PROPS = {
     ),
     "C02": dict(
         title="Launchpad-token solvency",
-        lean=["LP.Props.C02", "LP.Props.C01reachV2", "LP.Props.C01reachV1", "LP.Props.C01reachG1", "LP.Props.C13reachV2", "LP.Props.C14reachG", "LP.Props.C14feeLp", "LP.Props.C02reach", "LP.Props.AllVariants2", "LP.Props.C16reach"],
+        lean=["LP.Props.C02", "LP.Props.C01reachV2", "LP.Props.C01reachV1", "LP.Props.C01reachG1", "LP.Props.C13reachV2", "LP.Props.C14reachG", "LP.Props.C14feeLp", "LP.Props.C02reach", "LP.Props.AllVariants2", "LP.Props.C16reach", "LP.Props.C01receipts"],
         profiles=[("life", ALL_VARIANTS), ("reserve", GUAR)],
         R={"st": [({"deposit"}, None), ({"claim", "claimPayment"}, FUNDS_MSGS)],
            "xf.lp": {"claim", "claimPayment"}, "lock": ANY},
@@ -88,7 +88,7 @@ PROPS = {
     ),
     "C09": dict(
         title="Each participant settles exactly once",
-        lean=["LP.Props.C09", "LP.Props.C01reachG1", "LP.Props.C14reach", "LP.Props.C13reachV2", "LP.Props.C14reachG", "LP.Props.C02reach", "LP.Props.C09nothing"],
+        lean=["LP.Props.C09", "LP.Props.C01reachG1", "LP.Props.C14reach", "LP.Props.C13reachV2", "LP.Props.C14reachG", "LP.Props.C02reach", "LP.Props.C09nothing", "LP.Props.C01receipts"],
         profiles=[("life", ALL_VARIANTS), ("vest", ["guarV1", "guarV2"])],
         R={"st": ({"claim"}, None), "xf": {"claim"}, "lock": {"claim"}, "sft": {"claim"}},
         D={k: {"claim"} for k in ["addr.cl", "addr.ut", "addr.uc", "addr.win", "addr.range", "addr.conf"]},
